@@ -246,7 +246,7 @@ def r6(run, db):
                 # "kill (no state)": the state-carrying Ok outcome must be unreachable once the loop reported was_killed
                 from .c01 import loop_result_flag_edges
                 lb, law, flags = loop_result_flag_edges(db, m, rt)
-                oks = [site for site, st_ in lb.aggregates(adt="std::result::Result", variant="Ok") if st_["lhs"][0] == 0 and not st_["lhs"][1]]
+                oks = ok_return_sites(lb)
                 run.anchor("%s loop-body Ok returns" % rt, len(oks), 1, lb.where())
                 run.check(bool(flags), "%s|killed-flag" % rt, "the loop result's was_killed flag is tested in the loop body", "the loop body does not test the was_killed flag of the loop result", lb.where())
                 for o in oks:
